@@ -1,0 +1,41 @@
+//! Verification hooks (cargo feature `verif`, off by default).
+//!
+//! A thread-local step counter with an armable budget. The lexer and parser
+//! call [`step`] at their unit-of-work points; exceeding an armed budget
+//! panics with a recognisable message so that a monitor can tell
+//! non-progress from slowness without a wall clock.
+use std::cell::Cell;
+
+thread_local! {
+    static STEPS: Cell<u64> = const { Cell::new(0) };
+    static BUDGET: Cell<u64> = const { Cell::new(u64::MAX) };
+}
+
+pub const BUDGET_EXHAUSTED: &str = "verif: step budget exhausted";
+
+pub fn arm(budget: u64) {
+    STEPS.with(|s| s.set(0));
+    BUDGET.with(|b| b.set(budget));
+}
+
+pub fn disarm() -> u64 {
+    BUDGET.with(|b| b.set(u64::MAX));
+    steps()
+}
+
+pub fn steps() -> u64 {
+    STEPS.with(|s| s.get())
+}
+
+#[inline]
+pub fn step() {
+    let n = STEPS.with(|s| {
+        let n = s.get() + 1;
+        s.set(n);
+        n
+    });
+    if n > BUDGET.with(|b| b.get()) {
+        BUDGET.with(|b| b.set(u64::MAX));
+        panic!("{}", BUDGET_EXHAUSTED);
+    }
+}
